@@ -115,37 +115,37 @@ def firstBad (l : List Access) : Option Access := l.find? (fun a => !a.ok)
     modelled as a stack (`current` = its length: the code only touches `XDBLs[current]` right after `current += 1`
     and right before `current -= 1`), `BLOCK` as the running sum. All counters are compared at every step, so the
     kernel evaluates them eagerly. -/
-def sim4Inner (row : List Nat) (target : Nat) : Nat → Nat → Nat → List Nat → Nat → Nat →
-    Option (Nat × Nat × List Nat × Nat × Nat)
-  | 0, _, _, _, _, _ => none
-  | fuel + 1, block, strategy, stack, maxC, maxS =>
-    if block = target then some (block, strategy, stack, maxC, maxS)
+def sim4Inner (target : Nat) : Nat → Nat → Nat → List Nat → List Nat → Nat → Nat →
+    Option (Nat × Nat × List Nat × List Nat × Nat × Nat)
+  | 0, _, _, _, _, _, _ => none
+  | fuel + 1, block, strategy, rest, stack, maxC, maxS =>
+    if block = target then some (block, strategy, rest, stack, maxC, maxS)
     else
-      match row.drop strategy with
+      match rest with                                -- `rest` = the row from column `strategy` on
       | [] => none                                   -- reading past the row
-      | s :: _ =>
+      | s :: rest' =>
         let cur := stack.length + 1
-        sim4Inner row target fuel (block + s) (strategy + 1) (s :: stack)
+        sim4Inner target fuel (block + s) (strategy + 1) rest' (s :: stack)
           (if maxC < cur then cur else maxC) (if maxS < strategy then strategy else maxS)
 
-def sim4Outer (row : List Nat) (eHalf : Nat) : Nat → Nat → Nat → Nat → List Nat → Nat → Nat →
+def sim4Outer (eHalf : Nat) : Nat → Nat → Nat → Nat → List Nat → List Nat → Nat → Nat →
     Option (Nat × Nat × Nat)
-  | 0, _, _, _, _, _, _ => none
-  | fuel + 1, j, block, strategy, stack, maxC, maxS =>
+  | 0, _, _, _, _, _, _, _ => none
+  | fuel + 1, j, block, strategy, rest, stack, maxC, maxS =>
     if j + 1 ≥ eHalf then some (stack.length, maxC, maxS)
     else
-      match sim4Inner row (eHalf - 1 - j) (eHalf + 2) block strategy stack maxC maxS with
+      match sim4Inner (eHalf - 1 - j) (eHalf + 2) block strategy rest stack maxC maxS with
       | none => none
-      | some (block', strategy', stack', maxC', maxS') =>
+      | some (block', strategy', rest', stack', maxC', maxS') =>
         match stack' with
         | [] => none                                 -- `current -= 1` below zero
-        | d :: rest =>
+        | d :: below =>
           if block' < d then none                    -- BLOCK underflow
-          else sim4Outer row eHalf fuel (j + 1) (block' - d) strategy' rest maxC' maxS'
+          else sim4Outer eHalf fuel (j + 1) (block' - d) strategy' rest' below maxC' maxS'
 
 /-- (final `current`, max `current`, max strategy column) of the traversal for `eHalf` steps -/
 def sim4 (row : List Nat) (eHalf : Nat) (_slots : Nat) : Option (Nat × Nat × Nat) :=
-  sim4Outer row eHalf (eHalf + 2) 0 0 0 [] 0 0
+  sim4Outer eHalf (eHalf + 2) 0 0 0 row [] 0 0
 
 /-- theta_isogenies.c `theta_chain_comput_strategy_faster_no_eval`: (max list length needed, max strategy index
     read) or none when stuck. `m = n - 1 - adjusting`. `level[0..len_list)` is modelled as a stack (last element on
@@ -156,31 +156,31 @@ def sim2First (row : List Nat) (m bound : Nat) : Nat → Nat → Nat → Nat × 
     if lenCount ≠ m ∧ index < bound then sim2First row m bound fuel (lenCount + row.getD index 0) (index + 1)
     else (lenCount, index)
 
-def sim2Inner (row : List Nat) (target : Nat) : Nat → Nat → Nat → List Nat → Nat → Nat →
-    Option (Nat × Nat × List Nat × Nat × Nat)
-  | 0, _, _, _, _, _ => none
-  | fuel + 1, lenCount, index, stack, maxL, maxI =>
-    if lenCount = target then some (lenCount, index, stack, maxL, maxI)
+def sim2Inner (target : Nat) : Nat → Nat → Nat → List Nat → List Nat → Nat → Nat →
+    Option (Nat × Nat × List Nat × List Nat × Nat × Nat)
+  | 0, _, _, _, _, _, _ => none
+  | fuel + 1, lenCount, index, rest, stack, maxL, maxI =>
+    if lenCount = target then some (lenCount, index, rest, stack, maxL, maxI)
     else
-      match row.drop index with
+      match rest with                                -- `rest` = the row from column `index` on
       | [] => none
-      | s :: _ =>
+      | s :: rest' =>
         let len := stack.length + 1
-        sim2Inner row target fuel (lenCount + s) (index + 1) (s :: stack)
+        sim2Inner target fuel (lenCount + s) (index + 1) rest' (s :: stack)
           (if maxL < len then len else maxL) (if maxI < index then index else maxI)
 
-def sim2Outer (row : List Nat) (n adj : Nat) : Nat → Nat → Nat → Nat → List Nat → Nat → Nat → Option (Nat × Nat)
-  | 0, _, _, _, _, _, _ => none
-  | fuel + 1, i, sum, index, stack, maxL, maxI =>
+def sim2Outer (n adj : Nat) : Nat → Nat → Nat → Nat → List Nat → List Nat → Nat → Nat → Option (Nat × Nat)
+  | 0, _, _, _, _, _, _, _ => none
+  | fuel + 1, i, sum, index, rest, stack, maxL, maxI =>
     if i + 1 + adj ≥ n then some (maxL, maxI)
     else
       if n < i + 2 + adj then none else
-      match sim2Inner row (n - i - 2 - adj) (n + 2) sum index stack maxL maxI with
+      match sim2Inner (n - i - 2 - adj) (n + 2) sum index rest stack maxL maxI with
       | none => none
-      | some (sum', index', stack', maxL', maxI') =>
+      | some (sum', index', rest', stack', maxL', maxI') =>
         match stack' with
         | [] => none                                 -- `len_list--` below zero
-        | d :: rest => if sum' < d then none else sim2Outer row n adj fuel (i + 1) (sum' - d) index' rest maxL' maxI'
+        | d :: below => if sum' < d then none else sim2Outer n adj fuel (i + 1) (sum' - d) index' rest' below maxL' maxI'
 
 /-- (number of array slots the traversal needs, max strategy column read) for a chain of length `n` -/
 def sim2 (row : List Nat) (n adj : Nat) : Option (Nat × Nat) :=
@@ -191,7 +191,7 @@ def sim2 (row : List Nat) (n adj : Nat) : Option (Nat × Nat) :=
   -- level[0] = 0, level[i] = strategy[i-1] for i < len_list; after the gluing `len_list--` drops the last one
   let stack := ((row.take index).dropLast).reverse ++ [0]
   let sum := stack.foldl (· + ·) 0
-  sim2Outer row n adj (n + 2) 0 sum index stack lenList (if index = 0 then 0 else index - 1)
+  sim2Outer n adj (n + 2) 0 sum index (row.drop index) stack lenList (if index = 0 then 0 else index - 1)
 
 /-! ## the pieces of the verifier body -/
 
